@@ -65,7 +65,7 @@ func genSegment(s sim.Source, depth int, cfg PoolCfg, prevCatch bool) (seg strin
 	switch s.Intn("altname", 24) {
 	case 23:
 		name = "q" + string(rune('0'+depth))
-	case 22, 21:
+	case 22, 21, 20, 19:
 		// names that agree with each other (and with nothing else) up to and including a dot, or extend the usual name
 		if cfg.Odd {
 			name += sim.Pick(s, "namesuffix", []string{".a", ".b", "x", "-y"})
@@ -239,6 +239,16 @@ func GenPool(s sim.Source, cfg PoolCfg) []*model.Pattern {
 		}
 		seen[raw] = true
 		out = append(out, p)
+	}
+	if cfg.Odd && len(out) > 0 {
+		// two wildcards at one position whose names agree up to and including a dot (registering both is a conflict), and
+		// the same under a host label
+		for _, raw := range []string{"/o/{n.a}/x", "/o/{n.b}/y", "/o/*{n.a}"} {
+			if p, err := model.Parse(raw); err == nil && !seen[raw] {
+				seen[raw] = true
+				out = append(out, p)
+			}
+		}
 	}
 	if cfg.Fanout && len(out) > 0 {
 		// more than 50 static siblings below "/f/" to cross the linear/binary search switch
